@@ -534,6 +534,16 @@ where
         #[cfg(debug_assertions)]
         tracing::trace!(id=%self.id, "drop for checkout");
 
+        // A connection taken out of the idle list but never handed to the caller
+        // goes back to the pool instead of being closed.
+        if let Some(connection) = self.as_mut().project().connection.take() {
+            if !connection.can_share() && connection.is_open() {
+                if let Some(mut pool) = self.pool.lock() {
+                    pool.push(self.token, connection, self.pool.clone());
+                }
+            }
+        }
+
         if let Some(checkout) = self.as_mut().as_delayed() {
             tokio::task::spawn(async move {
                 if let Err(err) = checkout.await {
